@@ -42,6 +42,8 @@ import Rl.Lemmas.RenderLogTop
 import Rl.Lemmas.RenderLogExec
 import Rl.Lemmas.RenderLogBd
 import Rl.Lemmas.RenderLogBdTop
+import Rl.Lemmas.PopUndoWF
+import Rl.Lemmas.RenderLogAlpha
 import Rl.Lemmas.CharSearch
 import Rl.Lemmas.EditorNextRet
 import Rl.Lemmas.LBFaithful
@@ -672,16 +674,16 @@ def C02_editorLog (S : Segmenter) (U : UData) (cfg : EdCfg) (ring : KillRing) (l
     rendering primitive, both key maps, every command of `execute`, circular and listing completion, incremental
     search, the dispatch loop, the main loop and the initial text: `Rl/Lemmas/RenderLogBd*.lean`, with C03's
     totality theorems and package L's `lmsafe_*` per operation, C09 for search positions).  Hypotheses: the indent
-    size fits the code's `u8`, and `yank_pop` / the undo log leave the cursor on a boundary whenever they return
-    (`YankPopWF`, `UndoWF`: statements about `Rl/LineBuffer.lean` / `Rl/Undo.lean` alone).  No contract on the
+    size fits the code's `u8` — nothing else: that `yank_pop` / the undo log leave the cursor on a boundary whenever
+    they return is `C02_popUndoWF` (`Rl/Lemmas/PopUndoWF.lean`).  No contract on the
     completer, validator, hinter or bindings is needed: `replace` slices at both ends, so it either panics or leaves a
     well-formed cursor. -/
 theorem C02_logBd (S : Segmenter) (U : UData) (cfg : EdCfg) (ring : KillRing) (left right : Text) (inp : Input)
-    (hind : cfg.indentSize ≤ 255) (hpop : YankPopWF S U) (hundo : UndoWF S U) :
+    (hind : cfg.indentSize ≤ 255) :
     LogBd (C02_editorLog S U cfg ring left right inp).reverse := by
   unfold C02_editorLog
   rw [List.reverse_reverse]
-  exact readline_logBd hind hpop hundo ring left right inp
+  exact readline_logBd hind yankPopWF undoWF ring left right inp
 
 /-- **The editor model's log is coherent and replays without panic**, for logs whose texts are of the
     quantified kind (`LogPlain`: a restriction on what is typed, stored, completed and hinted) and whose cursors are
@@ -691,14 +693,14 @@ theorem C02_editor_log_coherent (S : Segmenter) (U : UData) (cfg : EdCfg) (ring 
     (inp : Input) (hc : 2 ≤ cfg.cols) (hprompt : C02_Plain S (edR U cfg) cfg.prompt)
     (hctl : C02_CtlZero U)
     (hplain : LogPlain S (edR U cfg) cfg.prompt (C02_editorLog S U cfg ring left right inp).reverse)
-    (hind : cfg.indentSize ≤ 255) (hpop : YankPopWF S U) (hundo : UndoWF S U) :
+    (hind : cfg.indentSize ≤ 255) :
     ∃ rs g, RepFrom S (edR U cfg) cfg.prompt (RS.init S (edR U cfg) cfg.prompt) {}
         (C02_editorLog S U cfg ring left right inp) rs g ∧
       C02_Coherent S (edR U cfg) cfg.prompt (RS.init S (edR U cfg) cfg.prompt) {}
         (C02_editorLog S U cfg ring left right inp) ∧
       RS.run S (edR U cfg) cfg.prompt (RS.init S (edR U cfg) cfg.prompt)
         (C02_editorLog S U cfg ring left right inp) = (rs, false) := by
-  have hbd := C02_logBd S U cfg ring left right inp hind hpop hundo
+  have hbd := C02_logBd S U cfg ring left right inp hind
   have hfine := (logFine_iff S (edR U cfg) cfg.prompt _).2 ⟨hplain, hbd⟩
   have hlb : LBFaithful S U := C02_lbFaithful S U
   have hnext := fun fuel sea iep => pres_nextCmd (S := S) (U := U) (cfg := cfg) hc hprompt fuel sea iep
@@ -724,7 +726,7 @@ theorem C02_editor_shows (S : Segmenter) (U : UData) (cfg : EdCfg) (ring : KillR
     (inp : Input) (hc : 2 ≤ cfg.cols) (hprompt : C02_Plain S (edR U cfg) cfg.prompt)
     (hctl : C02_CtlZero U)
     (hplain : LogPlain S (edR U cfg) cfg.prompt (C02_editorLog S U cfg ring left right inp).reverse)
-    (hind : cfg.indentSize ≤ 255) (hpop : YankPopWF S U) (hundo : UndoWF S U)
+    (hind : cfg.indentSize ≤ 255)
     (ops rest : List RenderOp) (line : Text) (pos : Nat) (hint : Option Text) (b a : Text)
     (hlog : C02_editorLog S U cfg ring left right inp = (ops ++ [.sync line pos hint]) ++ rest)
     (hsplit : splitAtByte line pos = some (b, a)) :
@@ -735,7 +737,7 @@ theorem C02_editor_shows (S : Segmenter) (U : UData) (cfg : EdCfg) (ring : KillR
        Shows (edR U cfg).cw ((Term.blank (edR U cfg).cols).feed (edR U cfg).cw
           (RS.run S (edR U cfg) cfg.prompt (RS.init S (edR U cfg) cfg.prompt)
             (ops ++ [.sync line pos hint])).1.segs.reverse.flatten) p b a []) := by
-  obtain ⟨rs, g, hrep, _, _⟩ := C02_editor_log_coherent S U cfg ring left right inp hc hprompt hctl hplain hind hpop hundo
+  obtain ⟨rs, g, hrep, _, _⟩ := C02_editor_log_coherent S U cfg ring left right inp hc hprompt hctl hplain hind
   rw [hlog] at hrep
   obtain ⟨rs1, g1, h1⟩ := hrep.prefix
   have hco := h1.coherent
@@ -761,8 +763,54 @@ def C02_logBd_statement : Prop :=
     (readline S U cfg (KillRing.new 60) left right inp).1 ≠ .panic →
     LogBd (C02_editorLog S U cfg (KillRing.new 60) left right inp).reverse
 
-/-- not proved yet: what `C02_logBd` asks of `yank_pop` and of the undo log — whenever they return (anything but a
-    panic), the cursor of the line is on a character boundary.  `yank_pop` removes the last yank by slicing (`drain`
-    → `split3`, which panics off a boundary) and then pastes with `yank`; `Changeset::undo` replays recorded edits
-    with the slicing primitives.  Statements about `Rl/LineBuffer.lean` / `Rl/Undo.lean` alone. -/
+/-- what `C02_logBd` needed of `yank_pop` and of the undo log — whenever they return (anything but a panic), the
+    cursor of the line is on a character boundary.  `yank_pop` removes the last yank by slicing (`drain` → `split3`,
+    which panics off a boundary) and then pastes with `yank`; `Changeset::undo` replays recorded edits with the
+    slicing primitives.  Statements about `Rl/LineBuffer.lean` / `Rl/Undo.lean` alone. -/
 def C02_popUndoWF_statement : Prop := ∀ (S : Segmenter) (U : UData), YankPopWF S U ∧ UndoWF S U
+
+/-- … a theorem (`Rl/Lemmas/PopUndoWF.lean`): for `yank_pop`, C03's totality theorem inside its contract, and outside
+    it either the refusal that returns the line unchanged or the panic of `split3`; for `undo`, package L's
+    `undoLoop_wf_grow`. -/
+theorem C02_popUndoWF : C02_popUndoWF_statement := fun _ _ => ⟨yankPopWF, undoWF⟩
+
+/-- the round-4 target, with C17's helper contracts: a corollary of `C02_logBd`, which needs none of them but the
+    indent size (the def is kept for the record of what was aimed at) -/
+theorem C02_logBd_with_contracts : C02_logBd_statement :=
+  fun S U cfg left right inp _ _ _ hind _ _ _ => C02_logBd S U cfg (KillRing.new 60) left right inp hind
+
+/-! ### the text half at character level
+
+  `LogPlain` speaks of how each logged piece is segmented; over an alphabet `A` on which the cell arithmetic is
+  right (`AlphaPlain S R A`: every text over `A` segments into clusters of the quantified kind) it follows from
+  `LogAlpha A`: every logged prompt, line and hint is written over `A` — a statement about which characters reach the
+  screen, with no segmenter in it (`logPlain_of_alpha`).  That the characters that reach the screen are those of the
+  inputs (typed, pasted, stored, completed, hinted, the kill ring carried over, case mappings, the blanks of
+  `indent`) is not proved: it is a character-level closure invariant over the line, the saved line, the kill ring and
+  the undo log through every line-buffer operation, and a statement about which characters the key maps put into the
+  commands they return. -/
+
+/-- `C02_editor_shows` with the text hypotheses at character level: an alphabet on which the cell arithmetic is right,
+    a prompt and a log written over it -/
+theorem C02_editor_shows_alpha (S : Segmenter) (U : UData) (cfg : EdCfg) (ring : KillRing) (left right : Text)
+    (inp : Input) (A : Char → Bool) (hc : 2 ≤ cfg.cols) (hA : AlphaPlain S (edR U cfg) A)
+    (hprompt : OverA A cfg.prompt) (hctl : C02_CtlZero U)
+    (hlog : LogAlpha A cfg.prompt (C02_editorLog S U cfg ring left right inp).reverse)
+    (hind : cfg.indentSize ≤ 255)
+    (ops rest : List RenderOp) (line : Text) (pos : Nat) (hint : Option Text) (b a : Text)
+    (hsync : C02_editorLog S U cfg ring left right inp = (ops ++ [.sync line pos hint]) ++ rest)
+    (hsplit : splitAtByte line pos = some (b, a)) :
+    ∃ p, (p = cfg.prompt ∨ C02_IsSearchPrompt p) ∧
+      (Shows (edR U cfg).cw ((Term.blank (edR U cfg).cols).feed (edR U cfg).cw
+          (RS.run S (edR U cfg) cfg.prompt (RS.init S (edR U cfg) cfg.prompt)
+            (ops ++ [.sync line pos hint])).1.segs.reverse.flatten) p b a (hint.getD []) ∨
+       Shows (edR U cfg).cw ((Term.blank (edR U cfg).cols).feed (edR U cfg).cw
+          (RS.run S (edR U cfg) cfg.prompt (RS.init S (edR U cfg) cfg.prompt)
+            (ops ++ [.sync line pos hint])).1.segs.reverse.flatten) p b a []) :=
+  C02_editor_shows S U cfg ring left right inp hc (hA _ hprompt) hctl (logPlain_of_alpha hA hlog) hind
+    ops rest line pos hint b a hsync hsplit
+
+/-- non-vacuity of `AlphaPlain`: for the one-character-per-cluster segmenter and a width table of width 1, every
+    text without control characters is of the quantified kind -/
+example : AlphaPlain C02_cexSeg C02_exR (fun c => !isC0Control c) :=
+  fun t ht => C02_exPlain t (fun c hc => by simpa using ht c hc)
